@@ -173,7 +173,7 @@ theorem assignKey_preserves_keyWF (s s' : State) (c : CId) (v key : Nat)
 def NotCurrent (x : Consumer) : Prop := ∀ e ∈ x.prune, ∀ k ∈ e.2, ∀ v, assignedKey x v ≠ some k
 
 /-- keys waiting to be pruned still resolve (monitored on the implementation as part of
-    `C05.key-inv`; its preservation by pruning needs "scheduled at most once", not proved here) -/
+    `C05.key-inv`; its preservation by pruning is `prune_preserves_resolves` below, under "scheduled at most once") -/
 def PruneResolves (x : Consumer) : Prop := ∀ e ∈ x.prune, ∀ k ∈ e.2, (resolveKey x k).isSome = true
 
 theorem mem_pruneAppend (pr : List (Time × List Nat)) (t : Time) (k : Nat) :
@@ -285,5 +285,65 @@ theorem assign_preserves_notCurrent (s : State) (c : CId) (v key : Nat) (t : Tim
     · have h1 := hwf v k hold
       have h2 := hwf w k hxw
       rw [h1] at h2; injection h2 with h2; exact hwv h2.symm
+
+/-! ### waiting keys keep resolving through pruning -/
+
+/-- every waiting key is scheduled for pruning at most once -/
+def PruneOnce (x : Consumer) : Prop := (x.prune.flatMap (·.2)).Nodup
+
+theorem flatMap_filter_sublist (l : List (Time × List Nat)) (p : Time × List Nat → Bool) :
+    ((l.filter p).flatMap (·.2)).Sublist (l.flatMap (·.2)) := by
+  induction l with
+  | nil => exact List.Sublist.refl _
+  | cons a t ih =>
+    rw [List.filter_cons]
+    split
+    · simp only [List.flatMap_cons]
+      exact List.Sublist.append (List.Sublist.refl _) ih
+    · simp only [List.flatMap_cons]
+      exact List.Sublist.trans ih (List.sublist_append_right _ _)
+
+/-- a key scheduled once cannot be in an entry that is due and in one that is not -/
+theorem once_separates (l : List (Time × List Nat)) (p : Time × List Nat → Bool)
+    (h : (l.flatMap (·.2)).Nodup) (e e' : Time × List Nat) (he : e ∈ l) (he' : e' ∈ l)
+    (hp : p e = true) (hp' : p e' = false) (k : Nat) (hk : k ∈ e.2) (hk' : k ∈ e'.2) : False := by
+  induction l with
+  | nil => cases he
+  | cons a t ih =>
+    simp only [List.flatMap_cons] at h
+    rcases List.nodup_append.mp h with ⟨_, ht, hd⟩
+    rcases List.mem_cons.mp he with rfl | het
+    · rcases List.mem_cons.mp he' with rfl | het'
+      · rw [hp] at hp'; cases hp'
+      · exact hd k hk k (List.mem_flatMap.mpr ⟨e', het', hk'⟩) rfl
+    · rcases List.mem_cons.mp he' with rfl | het'
+      · exact hd k hk' k (List.mem_flatMap.mpr ⟨e, het, hk⟩) rfl
+      · exact ih ht het het'
+
+/-- pruning keeps "every waiting key still resolves" and "scheduled at most once": the keys it
+    forgets are exactly those of the due entries, and a key that keeps waiting is in none of them -/
+theorem prune_preserves_resolves (x : Consumer) (now : Time) (hr : PruneResolves x) (ho : PruneOnce x) :
+    PruneResolves (pruneKeys x now) ∧ PruneOnce (pruneKeys x now) := by
+  constructor
+  · intro e he k hk
+    have hmem := List.mem_filter.mp he
+    have hlate : decide (now < e.1) = true := hmem.2
+    have hnotdue : decide (e.1 ≤ now) = false := by
+      have : now < e.1 := of_decide_eq_true hlate
+      exact decide_eq_false (Int.not_le.mpr this)
+    have hnotin : ¬ k ∈ (x.prune.filter fun e => decide (e.1 ≤ now)).flatMap (·.2) := by
+      intro hin
+      rcases List.mem_flatMap.mp hin with ⟨e', he', hk'⟩
+      have hm' := List.mem_filter.mp he'
+      exact once_separates x.prune (fun e => decide (e.1 ≤ now)) ho e' e hm'.1 hmem.1 hm'.2 hnotdue k hk' hk
+    have := hr e hmem.1 k hk
+    rw [resolveKey_eq] at this ⊢
+    show (((x.byaddr.filter fun b => !((x.prune.filter fun e => decide (e.1 ≤ now)).flatMap (·.2)).contains b.1).find? (·.1 == k)).map (·.2)).isSome = true
+    rw [find_filter_notin _ _ _ hnotin]
+    exact this
+  · exact List.Nodup.sublist (flatMap_filter_sublist x.prune _) ho
+
+example : PruneOnce { (default : Consumer) with prune := [(3, [7, 8]), (5, [9])] } := by
+  unfold PruneOnce; decide
 
 end ICS.Props.C05
